@@ -8,7 +8,7 @@ CONSTANT Depth
 VARIABLE hist
 MetaSet == {[key |-> k] @@ meta[k] : k \in DOMAIN meta}
 EngSet(n) == {[key |-> k] @@ engine[n][k] : k \in DOMAIN engine[n]}
-Post == [res |-> last'.res, why |-> last'.why, ret |-> last'.ret, n |-> last'.n,
+Post == [amb |-> last'.amb, res |-> last'.res, why |-> last'.why, ret |-> last'.ret, n |-> last'.n,
          meta |-> MetaSet', eng |-> [n \in Node |-> EngSet(n)'], ctr |-> ctr']
 Rec == IF last'.why = "restart"
        THEN [t |-> "restart", g |-> 0, opt |-> "plain", ents |-> <<>>, cut |-> 0] @@ Post
@@ -18,11 +18,15 @@ GNext == /\ nreq < Depth
          /\ hist' = IF nreq' # nreq THEN Append(hist, Rec) ELSE hist
 GInit == Init /\ hist = <<>>
 GSpec == GInit /\ [][GNext]_<<vars, hist>>
-Emit == ~(nreq = Depth /\ ~Busy) \/ PrintT(<<"HIST", ToJson(hist)>>)
+NoHist == vars   \* VIEW for counterexample searches: histories do not split states
+\* behaviours whose outcome depends on an unspecified order are neither continued nor emitted
+Sure == \A i \in 1..Len(hist) : ~hist[i].amb
+GBound == Bound /\ Sure
+Emit == ~(nreq = Depth /\ ~Busy /\ Sure) \/ PrintT(<<"HIST", ToJson(hist)>>)
 Cex(name, ok) == ok \/ (PrintT(<<"CEX", name, ToJson(hist)>>) /\ FALSE)
 CexCrossStore == Cex("CrossStore", CrossStoreAfterOk)
 CexCrossStoreStrict == Cex("CrossStoreStrict", CrossStore)
-CexNamesUnique == Cex("NamesUnique", NamesUnique)
-CexKeysUnique == Cex("KeysUnique", KeysUniqueNeverReused)
+CexNamesUnique == Cex("NamesUnique", Quiet => NamesUnique)
+CexKeysUnique == Cex("KeysUnique", Quiet => KeysUniqueNeverReused)
 CexDeletedIsGone == Cex("DeletedIsGone", DeletedIsGone)
 =============================================================================
